@@ -113,6 +113,14 @@ impl Prop for C05 {
         }
         sim.strict_bg_panics = false;
         let mut model = build_model_min(&s.gen, s.model_seed, &[], s.start_s, 2);
+        if rng.chance(1, 2) {
+            // a file saved from a stream: its node reports size 0 although it has content of its own
+            let data = rng.bytes_range(200, 6000);
+            let mut e = crate::model::default_entry(&mut rng, crate::model::Kind::File(std::sync::Arc::new(data)), s.start_s);
+            e.inode = 4_242_424;
+            let _ = model.entries.insert(vec![b"stdin-data.stream".to_vec()], e);
+            rep.fire("model_with_a_stream_file(node size 0, content present)", 1);
+        }
         let hist = match sim.build_history(&mut rng, &s.gen, &mut model, s.steps) {
             Ok(h) => h,
             Err((fp, d)) => {
